@@ -15,7 +15,8 @@ reachable quiescent model state renders to it, otherwise the first possible rend
 
 Ops:  reset <proto> <modern> <try> <scripts> | login | loginstall | req <s> | start <s> | release | par <a> <b>
       | race <a> <b> | kick <s> | drop <s> | quit | create <k> <s> (CreateConnectionRequest only; the object is kept)
-      | conn <k> <s> (Connect on the kept object)
+      | conn <k> <s> (Connect on the kept object) | tconn <s> | ereq <s> <to> / edeny <s> (ServerPreConnectEvent
+      subscriber redirects the request to <to> / denies it)
 Spec verdict (independent of the model, on the implementation's output): see `judge`.
 -/
 namespace Gate.C16
@@ -231,12 +232,19 @@ def judge (d : DS) (op : String) (args : List String) (impl : String) (mp : Nat)
     let (op, args) := match op, args with
       | "conn", [_, dst] => ("req", [dst])     -- Connect on a kept request object is judged like any request
       | "tconn", [dst] => ("req", [dst])       -- … and so is a request with a short deadline
+      -- a redirected request is judged against its EFFECTIVE destination — unless the player already sits on the
+      -- originally requested server: that is answered (AlreadyConnected) before the subscribers are asked
+      | "ereq", [orig, to] => if prev.cur = orig then ("req", [orig]) else ("req", [to])
+      | "edeny", [dst] => ("req", [dst])
       | o, a => (o, a)
     match op, args, ws with
     | "req", [dst], r :: _ =>
       if mp > d.outstanding + d.orphaned + 1 then "viol:two-attempts-in-flight"
       else if d.outstanding > 0 then
         (if r = "inprogress" && unchanged then "ok" else "viol:inflight-not-reported")
+      else if d.orphaned = 0 && prev.act && prev.cur = dst && r ≠ "already" && r ≠ "canceled" then
+        -- a request whose (effective) destination is the server the player is on must be answered AlreadyConnected
+        "viol:already-connected-not-reported"
       else if r = "ok" then (if o.cur = dst then "ok" else "viol:not-on-destination")
       else if r = "already" then (if unchanged && prev.cur = dst then "ok" else "viol:noop-side-effect")
       else if r = "inprogress" then (if unchanged then "ok" else "viol:noop-side-effect")
@@ -320,6 +328,16 @@ def stepDriver (d : DS) (c0 : Case) : DS × String × String :=
           fun (s, ids) => (taskRes s ids.getLast! ++ " " ++ observe s, (s, ids.dropLast)))
       | "req", [dst] =>
         some (fun s ids => let (s', i) := spawnPlain s (srvOf dst); some (s', ids ++ [i]),
+          fun (s, ids) => (taskRes s ids.getLast! ++ " " ++ observe s, (s, ids.dropLast)))
+      | "ereq", [dst, to] =>  -- a ServerPreConnectEvent subscriber redirects the request to `to`
+        some (fun s ids =>
+          let (s', i) := spawnPlain s (srvOf dst)
+          some ({ s' with tasks := upd s'.tasks i { s'.tasks i with ev := .redirect (srvOf to) } }, ids ++ [i]),
+          fun (s, ids) => (taskRes s ids.getLast! ++ " " ++ observe s, (s, ids.dropLast)))
+      | "edeny", [dst] =>     -- … or denies it
+        some (fun s ids =>
+          let (s', i) := spawnPlain s (srvOf dst)
+          some ({ s' with tasks := upd s'.tasks i { s'.tasks i with ev := .deny } }, ids ++ [i]),
           fun (s, ids) => (taskRes s ids.getLast! ++ " " ++ observe s, (s, ids.dropLast)))
       | "tconn", [dst] =>     -- Connect with a short deadline: it expires at some point of the attempt
         some (fun s ids =>
